@@ -85,6 +85,7 @@ def random_case(draw):
     case["graph"] = kind
     case["mem"] = draw(st.sampled_from(gen.ARRAY_LAYOUTS))
     case["reuse"] = draw(st.sampled_from([None, None, "rescaled", "other-tree", "after-error", "after-error"]))
+    case["kwargs"] = draw(st.booleans())
     return case
 
 
@@ -124,7 +125,12 @@ def check_move(case):
         else:
             tab.clear()
             tab.update(real)
-    out = lib("move", gaddlemaps.move_mol_atom, pos, tab, atom, displ)
+    if case.get("kwargs"):
+        out = lib("move", gaddlemaps.move_mol_atom, atoms_pos=pos, bonds_info=tab, atom_index=atom, displ=displ)
+    else:
+        out = lib("move", gaddlemaps.move_mol_atom, pos, tab, atom, displ)
+    if out is pos:
+        raise PropertyViolation("input-unchanged", "move_mol_atom returned the caller's own array object")
     out = np.asarray(out, float)
     if not np.array_equal(pos, before) or not np.array_equal(displ, displ_before):
         raise PropertyViolation("input-unchanged", "move_mol_atom modified its input array or displacement")
@@ -194,8 +200,12 @@ def check_displ(case):
         return {"nontrivial": False, "classes": ["neighbours:0"]}
     np.random.seed(case["seed"])
     before = pos.copy()
-    d = np.asarray(lib("random-displ", gaddlemaps.find_atom_random_displ, pos, tab, atom,
-                       sigma_scale=case["sigma"]), float)
+    if case["seed"] % 2:
+        d = np.asarray(lib("random-displ", gaddlemaps.find_atom_random_displ, atoms_pos=pos, bonds_info=tab, atom_index=atom,
+                           sigma_scale=case["sigma"]), float)
+    else:
+        d = np.asarray(lib("random-displ", gaddlemaps.find_atom_random_displ, pos, tab, atom,
+                           sigma_scale=case["sigma"]), float)
     if not np.array_equal(pos, before):
         raise PropertyViolation("input-unchanged", "find_atom_random_displ modified its input")
     if d.shape != (3,) or not np.all(np.isfinite(d)):
